@@ -783,6 +783,10 @@ if z(s[:, -1].mean(), 2.0 * math.exp(0.1 * 0.1), float(s[:, -1].std()) / n ** 0.
 kw = dict(mu=0.1, sigma=0.2, jump_per_year=30.0, jump_mean_up=0.05, jump_mean_down=0.08, jump_up_prob=0.25, dt=0.01, init_state=(2.0,), dtype=torch.float64)
 s = ps.generate_kou_jump(n, 11, **kw)
 if z(s[:, -1].mean(), 2.0 * math.exp(0.1 * 0.1), float(s[:, -1].std()) / n ** 0.5) > 5: bad.append(("kou mean", float(s[:, -1].mean())))
+# Kou on a coarse grid: several jumps per step (jump_per_year * dt = 2.5)
+kw = dict(mu=0.05, sigma=0.2, jump_per_year=30.0, jump_mean_up=0.05, jump_mean_down=0.08, jump_up_prob=0.4, dt=1.0 / 12, init_state=(2.0,), dtype=torch.float64)
+s = ps.generate_kou_jump(n, 4, **kw)
+if z(s[:, -1].mean(), 2.0 * math.exp(0.05 * 0.25), float(s[:, -1].std()) / n ** 0.5) > 5: bad.append(("kou mean, monthly grid", float(s[:, -1].mean())))
 # GBM
 s = ps.generate_geometric_brownian(n, 11, mu=0.1, sigma=0.3, dt=0.01, init_state=(2.0,), dtype=torch.float64)
 if z(s[:, -1].mean(), 2.0 * math.exp(0.1 * 0.1), float(s[:, -1].std()) / n ** 0.5) > 5: bad.append(("gbm mean", float(s[:, -1].mean())))
@@ -945,6 +949,15 @@ def kou_ob(aspect=None):
                 if not (up.op == 'sel' and dn.op == 'neg' and dn.args[0].op == 'sel' and up.args[0] in rates and dn.args[0].args[0] in rates):
                     return Verdict('unknown', 'engine', time.time() - t0, 'jump law not recognised: %s' % tm.show(law)[:200])
                 eu, ed = rates[up.args[0]], rates[dn.args[0].args[0]]
+                # one direction flag PER sampled jump: every index variable of the exponential draw also indexes the uniform (a flag that
+                # lacks one of them is shared by several jumps - the jump sizes within a step are then not independent and R2/R3 do not apply)
+                u_sel = law.args[0].args[0]
+                fv_u = set().union(*[tm.free_vars(a_) for a_ in u_sel.args[1:]]) if len(u_sel.args) > 1 else set()
+                fv_e = set().union(*[tm.free_vars(a_) for a_ in up.args[1:]]) if len(up.args) > 1 else set()
+                fv_d = set().union(*[tm.free_vars(a_) for a_ in dn.args[0].args[1:]]) if len(dn.args[0].args) > 1 else set()
+                shared = (fv_e | fv_d) - fv_u
+                rows.append((LAW + 'every sampled jump has its own up/down flag and its own size (the draws are indexed by path, step and jump)',
+                             'refuted' if shared else 'proved', 'the uniform %s does not depend on %s' % (tm.show(u_sel)[:80], sorted(tm.show(v_) for v_ in shared)) if shared else ''))
                 EeJ = tm.add(tm.mul(p_up, tm.div(eu, tm.sub(eu, tm.ONE))), tm.mul(tm.sub(tm.ONE, p_up), tm.div(ed, tm.add(ed, tm.ONE))))     # R3
                 rate = pr[0][2]
                 goals = [('E[S_t] == S0 exp(mu t): drift + diffusion variance/2 + t lambda (E e^J - 1) == mu t   (R1, R2, R3 on the SAMPLED jump law)',
